@@ -43,7 +43,9 @@ ASSUMPTIONS = [
     "elements longer than 2 characters cannot be held by the default element annotation; only a 4-character symbol "
     "is generated, and only for the 'does not fit V2000 columns' clause (no read-back demand on that symbol)",
     "strings with leading/trailing blanks are not generated for header fields and record names (fixed-column "
-    "text, the reader strips); for metadata values they are (DESIGN alphabet) as an unspecified class",
+    "text, the reader strips); for metadata values they are (DESIGN alphabet) as an unspecified class whose "
+    "accepted outcomes are: exception, exact value, or the value with every line stripped (normalisation by the "
+    "reader, not forbidden by the statement)",
     "AROMATIC_SINGLE/AROMATIC_DOUBLE are taken to be expressible in CTAB as query types 6/7 (biotite's documented "
     "convention); QUADRUPLE, AROMATIC_TRIPLE, COORDINATION fall back to default_bond_type (V3000 type 9 is also "
     "accepted for COORDINATION)",
@@ -1253,8 +1255,15 @@ def eval_meta(items, ctor, pal):
             raise Fail("unreadable_" + type(e).__name__, "biotite cannot read the metadata it wrote", "metadata",
                        "%s: %s" % (type(e).__name__, str(e)[:200]))
         want = [(norm_key(k), v) for k, v in items]
+        normalised = False
         if got != want:
-            raise Fail("readback_changed", "metadata (keys in order, values) read back", want, got)
+            # blanks at the edges of value lines: the reader strips every line - a normalisation the statement
+            # does not forbid (the SD format gives such blanks no meaning); exact or stripped are both accepted
+            want_n = [(k, "\n".join(ln.strip() for ln in v.split("\n"))
+                       if value_class(v)[1] == "value_line_edge_blank" else v) for k, v in want]
+            if got != want_n:
+                raise Fail("readback_changed", "metadata (keys in order, values) read back", want, got)
+            normalised = True
         check_readback(m2, back, "V2000", [])
         if not either:
             # mapping laws
@@ -1265,7 +1274,7 @@ def eval_meta(items, ctor, pal):
                     raise Fail("mapping_lookup_str", "Metadata['name'] after round trip", v, None)
             if back_md != md or len(back_md) != len(items):
                 raise Fail("mapping_eq", "Metadata.__eq__/len after round trip", None, None)
-        return ("unspecified_exact" if either else "accepted"), []
+        return ("unspecified_normalised" if normalised else "unspecified_exact" if either else "accepted"), []
     except Fail as f:
         return "fail", [(site, f.mode, f.what, f.expected, f.observed)]
 
